@@ -24,6 +24,25 @@ var answerClasses = []string{"", "", "", "transport", "reject-fee", "reject-gene
 func genC20(r *core.Rand, p *core.Plan) {
 	p.Sched = []string{"rtb0", "rtb0", "rtb1", "random"}[r.Intn(4)]
 	p.Cfg["maturity"] = []int64{1, 1, 2, 3}[r.Intn(4)]
+	if r.Chance(1, 5) {
+		// An unconfirmed child that spends TWO outputs of the same unconfirmed
+		// parent (a payment to an own address plus its change), then a restart:
+		// the re-broadcast must offer parent and child again.
+		p.Ops = append(p.Ops, core.Op{K: "newaddr", A: []int64{int64(r.Intn(4)), 0, 0}})
+		p.Ops = append(p.Ops, core.Op{K: "fund", A: []int64{0, 60e6}})
+		p.Ops = append(p.Ops, core.Op{K: "mine", A: []int64{1, 100, -1, 600, int64(r.Uint64() >> 1)}})
+		p.Ops = append(p.Ops, core.Op{K: "sync"})
+		p.Ops = append(p.Ops, core.Op{K: "sendself", A: []int64{int64(r.Range(20, 28)) * 1e6, int64(r.Intn(4))}})
+		p.Ops = append(p.Ops, core.Op{K: "sendx", A: []int64{int64(r.Range(40, 55)) * 1e6, 0, 2000, 0, 0}})
+		if r.Chance(1, 2) {
+			p.Ops = append(p.Ops, core.Op{K: "sendx", A: []int64{int64(r.Range(1, 3)) * 1e6, 0, 2000, 0, 0}})
+		}
+		p.Ops = append(p.Ops, core.Op{K: "stop"})
+		p.Ops = append(p.Ops, core.Op{K: "resend-answers", A: []int64{}})
+		p.Ops = append(p.Ops, core.Op{K: "start"})
+		p.Ops = append(p.Ops, core.Op{K: "sync"})
+		return
+	}
 	for i := 0; i < 2; i++ {
 		p.Ops = append(p.Ops, core.Op{K: "newaddr", A: []int64{int64(r.Intn(4)), 0, 0}})
 	}
@@ -537,6 +556,13 @@ func (x *world) checkResend(label string) {
 				x.env.Count("probe.resend-chain")
 			}
 		}
+		cnt := map[chainhash.Hash]int{}
+		for _, in := range t.TxIn {
+			cnt[in.PreviousOutPoint.Hash]++
+			if cnt[in.PreviousOutPoint.Hash] == 2 && x.unminedAtStart[in.PreviousOutPoint.Hash] {
+				x.env.Count("probe.resend-child-of-two-outputs-of-one-parent")
+			}
+		}
 	}
 }
 
@@ -569,4 +595,30 @@ func (x *world) unminedDescendants(h chainhash.Hash) []chainhash.Hash {
 		}
 	}
 	return out
+}
+
+// sendself: a payment to one of the wallet's own (fresh) addresses, so that
+// the transaction has two wallet outputs (payment and change).
+func (rs *runState) sendself(step int, op core.Op) {
+	x := rs.x
+	amount := op.Arg(0)
+	if amount < 10000 {
+		amount = 10000
+	}
+	sc := scopes[int(uint64(op.Arg(1))%uint64(len(scopes)))]
+	addr, err := x.w.NewAddress(0, sc)
+	if err != nil {
+		return
+	}
+	x.record(addr, sc, 0, "self")
+	tx, err := x.w.SendOutputs([]*wire.TxOut{payTo(addr, amount)}, nil, 0, 1, 2000, wallet.CoinSelectionLargest, "")
+	x.env.Count("op.SendOutputs")
+	x.env.Eff()
+	if err != nil {
+		x.env.Logf("%d sendself err=%v", step, err)
+		return
+	}
+	x.sent = append(x.sent, tx)
+	x.env.Count("probe.self-payment")
+	x.env.Logf("%d sendself tx=%s", step, short(tx.TxHash()))
 }
